@@ -68,7 +68,7 @@ def pick_variant(rng, slot: str) -> str:
     return rng.choices(vs, weights=w)[0]
 
 
-def gen_case(rng, entry=None, alias=None, tkind=None, present=None) -> dict:
+def gen_case(rng, entry=None, alias=None, tkind=None, present=None, shape=None) -> dict:
     entry = entry or rng.choices(list(ENTRY_LEVELS), weights=[22, 32, 22, 12, 12])[0]
     # "unhashable": Annotated alias whose metadata is a list - it cannot be a table key and the code must skip it
     alias = alias or rng.choices(["annotated", "newtype", "none", "unhashable"], weights=[55, 22, 13, 10])[0]
@@ -86,7 +86,39 @@ def gen_case(rng, entry=None, alias=None, tkind=None, present=None) -> dict:
     # a level without registrations: dialect absent, or present with an unrelated table
     empty = {lvl: rng.choice(["absent", "unrelated"]) for lvl in ENTRY_LEVELS[entry]}
     return {"entry": entry, "alias": alias, "tkind": tkind, "slots": slots, "empty": empty,
-            "dialect_support": bool(rng.random() < 0.5)}
+            "dialect_support": bool(rng.random() < 0.5), "shape": gen_shape(rng, entry) if shape is None else shape}
+
+
+DEFAULT_SHAPE = {"decl": "own", "generic": "plain", "position": "top", "config_at": "own", "config_style": "base",
+                 "decoy": "none", "target": "subclass"}
+
+
+def gen_shape(rng, entry: str) -> dict:
+    """Dimensions that must not change the resolution (the model does not mention them):
+    decl      where the field (with its options) is declared: in the class itself, in a base class and
+              inherited, or re-declared (in a middle class / in the class itself) over a base declaration that
+              carries other ("decoy") options;
+    generic   the field type is written directly, or through a TypeVar of a generic dataclass that is
+              specialised (alias key = the *specialised* Annotated alias);
+    position  the field is observed on the object passed to the call, on a Self-typed child (Optional[Self],
+              List[Self]) or on a nested dataclass - the call dialect and the format dialect must reach it;
+    config_at / config_style   Config on the class itself or inherited; subclass of BaseConfig or a plain class."""
+    if entry == "codec_bare":
+        return dict(DEFAULT_SHAPE)
+    sh = dict(DEFAULT_SHAPE)
+    sh["decl"] = rng.choices(["own", "inherit", "redeclare_mid", "redeclare_leaf"], weights=[45, 15, 25, 15])[0]
+    if sh["decl"] == "own" and rng.random() < 0.4:
+        sh["generic"] = "typevar"
+        sh["target"] = rng.choice(["subclass", "alias"]) if entry == "codec_dc" else "subclass"
+    sh["position"] = rng.choices(["top", "self_opt", "self_list", "inner"], weights=[50, 18, 12, 20])[0]
+    if sh["target"] == "alias" and sh["position"] in ("self_opt", "self_list"):
+        # excluded (not a C10 matter, fails without any customization): a codec of a specialised generic alias
+        # Box[int] whose class has a Self-typed field raises AttributeError / InvalidFieldValue on /repo
+        sh["position"] = "top"
+    sh["config_at"] = rng.choice(["own", "own", "parent"]) if (sh["decl"] != "own" or sh["generic"] == "typevar") else "own"
+    sh["config_style"] = rng.choice(["base", "base", "plain"])
+    sh["decoy"] = rng.choice(["f1", "f2", "both"]) if sh["decl"].startswith("redeclare") else "none"
+    return sh
 
 
 def effective(variant: str, d: str) -> bool:
@@ -150,13 +182,26 @@ def creation_recursion(case: dict) -> bool:
         drops = [("call",), ("call", "dflt")]
     else:
         return False
+    sh = {**DEFAULT_SHAPE, **case.get("shape", {})}
+    if sh["decl"] != "own" or sh["generic"] == "typevar":
+        # ancestors declared before the class that carries the Config are compiled without it
+        drops = drops + [("call", "cfgd", "cfg"), ("call", "cfgd", "cfg", "dflt")]
+    # every class of the chain is compiled: with the field's own options, with the decoy options of a base
+    # declaration, or (generic base with an unbound TypeVar) in a form where no registration matches
+    tables = {s: v for s, v in case["slots"].items() if s not in ("F1", "F2")}
+    fields = [{s: v for s, v in case["slots"].items() if s in ("F1", "F2")}]
+    if sh["decoy"] in ("f1", "both"):
+        fields.append({"F1": "both"})
+    elif sh["decoy"] == "f2":
+        fields.append({"F2": "strat"})
     for drop in drops:
-        c = dict(case)
-        c["slots"] = {s: v for s, v in case["slots"].items() if s.split(".")[0] not in drop}
-        for d in ("ser", "de"):
-            p = stale_alias_prediction(c, d)
-            if p is not None and p["mode"] == "recursion":
-                return True
+        for fs in fields:
+            c = dict(case)
+            c["slots"] = {**{s: v for s, v in tables.items() if s.split(".")[0] not in drop}, **fs}
+            for d in ("ser", "de"):
+                p = stale_alias_prediction(c, d)
+                if p is not None and p["mode"] == "recursion":
+                    return True
     return False
 
 
@@ -167,7 +212,7 @@ def creation_recursion(case: dict) -> bool:
 PRELUDE = '''
 import datetime, sys
 from dataclasses import dataclass, field
-from typing import Annotated, Any, Dict, List, NewType
+from typing import Annotated, Any, Dict, Generic, List, NewType, Optional, Self, Tuple, TypeVar
 from mashumaro import DataClassDictMixin, pass_through
 from mashumaro.config import BaseConfig, ADD_DIALECT_SUPPORT
 from mashumaro.dialect import Dialect
@@ -202,6 +247,17 @@ class AStrat(SerializationStrategy, use_annotations=True):
 
 def ident(x):
     return x
+
+def errname(e):
+    # a RecursionError raised while a nested class is compiled at call time arrives wrapped (InvalidFieldValue ...)
+    seen = 0
+    x = e
+    while x is not None and seen < 50:
+        if isinstance(x, RecursionError):
+            return "RecursionError"
+        x = x.__cause__ or x.__context__
+        seen += 1
+    return type(e).__name__ + ": " + str(e)[:200]
 
 def observe(d, out, original, builtin):
     layers = []
@@ -293,46 +349,120 @@ def build_source(case: dict) -> str:
             base = "DataClassMessagePackMixin"
         else:
             base = ""
+        sh = {**DEFAULT_SHAPE, **case.get("shape", {})}
+        mixin = entry in ("mixin", "mixin_fmt", "mixin_msgpack")
+        dsupport = mixin and (has["call"] or case.get("dialect_support"))
         cfg = []
-        if entry in ("mixin", "mixin_fmt", "mixin_msgpack") and (has["call"] or case.get("dialect_support")):
+        if dsupport:
             cfg.append("code_generation_options = [ADD_DIALECT_SUPPORT]")
         if has["cfgd"]:
             cfg.append("dialect = CfgD")
         ents = table("cfg")
         if ents:
             cfg.append(f"serialization_strategy = {{{', '.join(ents)}}}")
-        L.append("def make():\n    @dataclass\n    class DC" + (f"({base})" if base else "") + ":\n"
-                 f"        x: FT = field(metadata={{{', '.join(md)}}})\n"
-                 + ("        class Config(BaseConfig):\n" + "".join(f"            {c}\n" for c in cfg) if cfg else "")
-                 + "    return DC")
+        cfg_base = "(BaseConfig)" if sh["config_style"] == "base" else ""
+
+        def cfg_lines(ind):
+            return [ind + f"class Config{cfg_base}:"] + [ind + "    " + c for c in cfg] if cfg else []
+
+        typevar = sh["generic"] == "typevar"
+        if typevar:
+            L.append('T = TypeVar("T")')
+            tdecl = {"annotated": 'Annotated[T, "m"]', "unhashable": 'Annotated[T, ["m"]]'}.get(alias, "T")
+            bind = "ALIAS" if alias == "newtype" else "EX"
+        else:
+            tdecl = "FT"
+        decoy = []
+        if sh["decoy"] in ("f1", "both"):
+            decoy += ['"serialize": S("decoyF1")', '"deserialize": D("decoyF1")']
+        if sh["decoy"] in ("f2", "both"):
+            decoy.append('"serialization_strategy": Strat("decoyF2")')
+        real_field = f"x: {tdecl} = field(metadata={{{', '.join(md)}}})"
+        decoy_field = f"x: {tdecl} = field(metadata={{{', '.join(decoy)}}})"
+        # the container of the Self children must not itself be a registered key (list is the origin key of List[int])
+        kids = "kids: Tuple[Self, ...] = ()" if case["tkind"] == "list" else "kids: List[Self] = field(default_factory=list)"
+        extra = {"self_opt": ["nxt: Optional[Self] = None"], "self_list": [kids]}.get(sh["position"], [])
+        bases = lambda *b: "(" + ", ".join(x for x in b if x) + ")" if any(b) else ""  # noqa: E731
+        # chain of classes: (header, body lines, carries Config?)
+        chain = []
+        parent_cfg = sh["config_at"] == "parent"
+        if typevar:
+            chain.append((f"class Box{bases('Generic[T]', base)}:", [real_field] + extra, parent_cfg))
+            if sh["target"] == "subclass":
+                chain.append(("class DC(Box[" + bind + "]):", [], not parent_cfg))
+                target, ctor = "DC", "DC"
+            else:
+                chain[0] = (chain[0][0], chain[0][1], True)
+                target, ctor = "Box[" + bind + "]", "Box"
+        elif sh["decl"] == "own":
+            chain.append((f"class DC{bases(base)}:", [real_field] + extra, True))
+        elif sh["decl"] == "inherit":
+            chain.append((f"class Base{bases(base)}:", [real_field] + extra, parent_cfg))
+            chain.append(("class DC(Base):", [], not parent_cfg))
+        elif sh["decl"] == "redeclare_mid":
+            chain.append((f"class Base{bases(base)}:", [decoy_field], False))
+            chain.append(("class Middle(Base):", [real_field] + extra, parent_cfg))
+            chain.append(("class DC(Middle):", [], not parent_cfg))
+        else:  # redeclare_leaf
+            chain.append((f"class Base{bases(base)}:", [decoy_field], parent_cfg))
+            chain.append(("class DC(Base):", [real_field] + extra, not parent_cfg))
+        if not typevar:
+            target, ctor = "DC", "DC"
+        # module-level classes (a nested dataclass is referred to by name), creation errors are recorded
+        M = ["CLASS_ERROR = None", "try:"]
+        for header, body, with_cfg in chain:
+            M.append("    @dataclass")
+            M.append("    " + header)
+            lines = ["        " + b for b in body] + (cfg_lines("        ") if with_cfg else [])
+            M += lines or ["        pass"]
+        if sh["position"] == "inner":
+            M.append(f"    Target = {target}")
+            M.append("    @dataclass")
+            M.append(f"    class Outer{bases(base)}:")
+            M.append("        inner: Target")
+            if dsupport:
+                M += [f"        class Config{cfg_base}:", "            code_generation_options = [ADD_DIALECT_SUPPORT]"]
+            M.append(f"    TOP, CT = Outer, {ctor}")
+        else:
+            M.append(f"    TOP, CT = {target}, {ctor}")
+        M += ["except RecursionError:", "    CLASS_ERROR = 'RecursionError'", "except Exception as e:",
+              "    CLASS_ERROR = errname(e)"]
+        L.append("\n".join(M))
+        L.append(f"VALUE0 = {tk['value']}\nWIRE0 = {tk['wire']}")
+        pos = sh["position"]
+        obj = {"top": "CT(VALUE)", "self_opt": "CT(VALUE0, CT(VALUE))", "self_list": "CT(VALUE0, (CT(VALUE),))",
+               "inner": "TOP(CT(VALUE))"}[pos]
+        wire = {"top": "{'x': WIRE}", "self_opt": "{'x': WIRE0, 'nxt': {'x': WIRE}}",
+                "self_list": "{'x': WIRE0, 'kids': [{'x': WIRE}]}", "inner": "{'inner': {'x': WIRE}}"}[pos]
+        sel_ser = {"top": "['x']", "self_opt": "['nxt']['x']", "self_list": "['kids'][0]['x']", "inner": "['inner']['x']"}[pos]
+        sel_de = {"top": ".x", "self_opt": ".nxt.x", "self_list": ".kids[0].x", "inner": ".inner.x"}[pos]
     kw = "dialect=CallD" if has.get("call") else ""
+    ckw = ", " + kw if kw else ""
     if entry == "mixin":
-        ser = f"DC(VALUE).to_dict({kw})['x']"
-        de = f"DC.from_dict({{'x': WIRE}}{', ' + kw if kw else ''}).x"
+        ser = f"{obj}.to_dict({kw}){sel_ser}"
+        de = f"TOP.from_dict({wire}{ckw}){sel_de}"
     elif entry == "mixin_fmt":
-        ser = f"DC(VALUE).to_fmt({kw})['x']"
-        de = f"DC.from_fmt({{'x': WIRE}}{', ' + kw if kw else ''}).x"
+        ser = f"{obj}.to_fmt({kw}){sel_ser}"
+        de = f"TOP.from_fmt({wire}{ckw}){sel_de}"
     elif entry == "mixin_msgpack":
-        ser = f"DC(VALUE).to_msgpack(encoder=ident{', ' + kw if kw else ''})['x']"
-        de = f"DC.from_msgpack({{'x': WIRE}}, decoder=ident{', ' + kw if kw else ''}).x"
+        ser = f"{obj}.to_msgpack(encoder=ident{ckw}){sel_ser}"
+        de = f"TOP.from_msgpack({wire}, decoder=ident{ckw}){sel_de}"
     elif entry == "codec_dc":
         dd = "DfltD" if has["dflt"] else "None"
-        ser = f"BasicEncoder(DC, default_dialect={dd}).encode(DC(VALUE))['x']"
-        de = f"BasicDecoder(DC, default_dialect={dd}).decode({{'x': WIRE}}).x"
+        ser = f"BasicEncoder(TOP, default_dialect={dd}).encode({obj}){sel_ser}"
+        de = f"BasicDecoder(TOP, default_dialect={dd}).decode({wire}){sel_de}"
     else:
         dd = "DfltD" if has["dflt"] else "None"
         ser = f"BasicEncoder(FT, default_dialect={dd}).encode(VALUE)"
         de = f"BasicDecoder(FT, default_dialect={dd}).decode(WIRE)"
-    mk = "DC = make()" if entry != "codec_bare" else "pass"
     L.append(
-        "def run():\n    res = {}\n    try:\n        " + mk + "\n"
-        "    except RecursionError:\n        return {'class_error': 'RecursionError'}\n"
-        "    except Exception as e:\n        return {'class_error': type(e).__name__ + ': ' + str(e)[:200]}\n"
+        "def run():\n    res = {}\n"
+        + ("    if CLASS_ERROR:\n        return {'class_error': CLASS_ERROR}\n" if entry != "codec_bare" else "") +
         "    for d in ('ser', 'de'):\n        try:\n"
         f"            if d == 'ser':\n                res[d] = observe(d, {ser}, VALUE, BUILTIN_SER)\n"
         f"            else:\n                res[d] = observe(d, {de}, WIRE, BUILTIN_DE)\n"
         "        except RecursionError:\n            res[d] = {'error': 'RecursionError'}\n"
-        "        except Exception as e:\n            res[d] = {'error': type(e).__name__ + ': ' + str(e)[:200]}\n"
+        "        except Exception as e:\n            res[d] = {'error': errname(e)}\n"
         "    return res\n")
     return "\n".join(L)
 
@@ -663,6 +793,201 @@ def kernel_validation(ctx: vlib.Ctx, n: int):
     ctx.count(n=len(cases))
 
 
+def registry_validation(ctx: vlib.Ctx, n: int):
+    """(T) validation of registry_prepare (translated Registry.get up to the handler loop): the real Registry.get
+    is run on a real ValueSpec with one capturing handler; get_real_type is the real substitute_type_params with
+    a sampled TypeVar binding.  The Coq side gets the three primitives as finite tables computed with the real
+    functions on the closure of the declared type, so what is compared is which primitive is applied to what,
+    in which order, and what ends up in annotated_type / type / origin_type."""
+    import datetime
+    import typing
+    from typing import Annotated, Dict, List, NewType, Optional
+    from mashumaro.core.meta.helpers import get_type_origin, is_annotated, substitute_type_params
+    from mashumaro.core.meta.types.common import FieldContext, Registry, ValueSpec
+    rng = ctx.rng
+    T = typing.TypeVar("T")
+    U = typing.TypeVar("U")
+    NT = NewType("NT", int)
+    decls = [Annotated[T, "m"], T, Annotated[List[T], "m"], List[T], Dict[str, T], Annotated[Dict[str, U], "k"], List[int],
+             Annotated[int, "m"], int, NT, Annotated[NT, "m"], Optional[T], Annotated[Annotated[T, "a"], "b"],
+             Annotated[T, ["unhashable"]], datetime.date]
+    binds = [datetime.date, int, List[int], NT, Annotated[int, "inner"], T]
+    stale = [None, None, Annotated[int, "old"], Annotated[T, "m"]]
+
+    def enc(o):
+        return "KNone" if o is None else "(KStr " + vlib.coq_str(repr(o)) + ")"
+
+    cases, descr = [], []
+    for i in range(n):
+        t0 = rng.choice(decls)
+        a0 = rng.choice(stale)
+        mapping = {T: rng.choice(binds), U: rng.choice(binds)}
+        fake = types.SimpleNamespace(get_real_type=lambda name, ft, m=mapping: substitute_type_params(ft, m),
+                                     add_type_modules=lambda *a: None, cls=object)
+        got = {}
+
+        def handler(spec, got=got):
+            got.update(a=spec.annotated_type, t=spec.type, o=spec.origin_type)
+            return "ok"
+        reg = Registry()
+        reg.register(handler)
+        spec = ValueSpec(type=t0, expression="value", builder=fake, field_ctx=FieldContext(name="x", metadata={}),
+                         annotated_type=a0)
+        o0 = spec.origin_type
+        try:
+            reg.get(spec)
+            exp = f"Some ({enc(got['t'])}, {enc(got['o'])}, {enc(got['a'])})"
+        except Exception as e:  # noqa: BLE001
+            exp = "None"
+            got["err"] = type(e).__name__
+        dom = [t0]
+        for _ in range(4):
+            for x in list(dom):
+                for y in (substitute_type_params(x, mapping), get_type_origin(x)):
+                    if not any(y is z or (type(y) is type(z) and repr(y) == repr(z)) for z in dom):
+                        dom.append(y)
+        rt = "[" + "; ".join(f"({enc(x)}, {enc(substitute_type_params(x, mapping))})" for x in dom) + "]"
+        og = "[" + "; ".join(f"({enc(x)}, {enc(get_type_origin(x))})" for x in dom) + "]"
+        an = "[" + "; ".join(enc(x) for x in dom if is_annotated(x)) + "]"
+        cases.append(f"({rt}, {og}, {an}, ({enc(t0)}, {enc(o0)}, {enc(a0)}), {exp})")
+        descr.append(f"#{i} decl={t0!r} T:={mapping[T]!r} stale={a0!r} -> {got}"[:240])
+    name = "K5-registry-get-vs-python"
+    if not ctx.kernel_report.get("K5", {}).get("ok"):
+        ctx.correspondence(name, len(cases), -1, "K5 was not translated")
+        return
+    defs = """
+Definition lk (tb: list (kv * kv)) (v: kv) : kv := match d_get tb v with Some x => x | None => KStr "?outside-closure" end.
+Definition mem (l: list kv) (v: kv) : bool := existsb (kv_eqb v) l.
+Definition reg_ok (c: list (kv * kv) * list (kv * kv) * list kv * (kv * kv * kv) * option (kv * kv * kv)) : bool :=
+  match c with (rt, og, an, (t0, o0, a0), ex) =>
+    match registry_prepare (lk rt) (lk og) (mem an) (mk_spec t0 o0 a0), ex with
+    | Ok sp, Some (t1, o1, a1) => kv_eqb sp (mk_spec t1 o1 a1)
+    | Raise _, None => true
+    | _, _ => false end end.
+"""
+    bad, log = vlib.coq_bad_idx("c10_reg", "PyK_strat Strategies K5Kernel", "From VerifGen Require Import K5.", defs, cases,
+                                "reg_ok", "list (kv * kv) * list (kv * kv) * list kv * (kv * kv * kv) * option (kv * kv * kv)",
+                                shard=300, needs=["theories/K5Kernel.vo"])
+    if bad is None:
+        ctx.correspondence(name, len(cases), -1, log)
+        ctx.not_shown("translation validation K5 (Registry.get)", log)
+    else:
+        ctx.correspondence(name, len(cases), len(bad), str([descr[i] for i in bad[:6]]))
+        if bad:
+            ctx.not_shown("translation validation K5 (Registry.get)", f"cases {[descr[i] for i in bad[:6]]}")
+    ctx.count(n=len(cases))
+
+
+def fields_validation(ctx: vlib.Ctx, n: int):
+    """(T) validation of the translated CodeBuilder.dataclass_fields: real class hierarchies (dataclasses that
+    declare, re-declare with/without field options, or only inherit fields; plain classes in between), the real
+    property on a real CodeBuilder, compared as ordered name -> Field-identity dictionaries.  Also the two slice
+    primitives against CPython."""
+    import dataclasses
+    from mashumaro.core.meta.code.builder import CodeBuilder
+    rng = ctx.rng
+    cases, descr = [], []
+    names = ["x", "y", "z"]
+
+    def build_chain():
+        depth = rng.randint(1, 4)
+        cls = object
+        chain = []
+        uid = 0
+        for lvl in range(depth):
+            ns, ann = {}, {}
+            plain = lvl > 0 and rng.random() < 0.2        # a class that is not decorated with @dataclass
+            for nm in names:
+                r = rng.random()
+                if r < 0.45:
+                    continue
+                ann[nm] = int
+                uid += 1
+                if r < 0.7:
+                    ns[nm] = dataclasses.field(default=uid, metadata={"uid": uid})
+                elif r < 0.85:
+                    ns[nm] = uid                            # plain default, no options
+                elif r < 0.93:
+                    ns[nm] = dataclasses.field(default_factory=list, metadata={"uid": uid})
+                # else: bare annotation (only legal when no earlier field has a default: give a default anyway)
+                else:
+                    ns[nm] = uid
+            ns["__annotations__"] = ann
+            c = type(f"C{lvl}", (cls,) if cls is not object else (), ns)
+            if not plain:
+                c = dataclasses.dataclass(c)
+            chain.append(c)
+            cls = c
+        return chain
+
+    def tag(f, tags):
+        k = id(f)
+        if k not in tags:
+            tags[k] = len(tags) + 1
+        return tags[k]
+
+    def enc_field(f, tags):
+        if f.name is None:      # a Field in the namespace of a class that @dataclass has not processed
+            return f'(KNs [("name", KNone); ("metadata", KInt {tag(f, tags)})])'
+        return f'(mk_field {vlib.coq_str(f.name)} (KInt {tag(f, tags)}))'
+
+    def enc_val(v, tags):
+        if isinstance(v, dataclasses.Field):
+            return enc_field(v, tags)
+        return "(KInt 0)"
+
+    for i in range(n):
+        chain = build_chain()
+        cls = rng.choice(chain)
+        tags = {}
+        try:
+            b = CodeBuilder(cls)
+            real = b.dataclass_fields
+            own = list(getattr(b, "_CodeBuilder__get_field_types")(recursive=False))
+        except Exception as e:  # noqa: BLE001
+            ctx.hist("fields_validation", "skipped:" + type(e).__name__)
+            continue
+        mro = []
+        for c in cls.__mro__:
+            fs = getattr(c, "__dataclass_fields__", None)
+            if fs is None:
+                mro.append("(KNs [])")
+            else:
+                mro.append('(KNs [("__dataclass_fields__", KDict [' + "; ".join(
+                    f"(KStr {vlib.coq_str(k)}, {enc_field(v, tags)})" for k, v in fs.items()) + "])])")
+        nsd = [(k, v) for k, v in cls.__dict__.items() if k in names]
+        ent = [f"(KStr {vlib.coq_str(k)}, {enc_val(v, tags)})" for k, v in nsd]
+        if "__dataclass_fields__" in cls.__dict__:
+            ent.append('(KStr "__dataclass_fields__", KDict [' + "; ".join(
+                f"(KStr {vlib.coq_str(k)}, {enc_field(v, tags)})" for k, v in cls.__dict__["__dataclass_fields__"].items()) + "])")
+        exp = "KDict [" + "; ".join(f"(KStr {vlib.coq_str(k)}, {enc_field(v, tags)})" for k, v in real.items()) + "]"
+        cases.append(f"(dataclass_fields (KTuple [{'; '.join(mro)}]) (KList [{'; '.join('KStr ' + vlib.coq_str(o) for o in own)}]) "
+                     f"(KDict [{'; '.join(ent)}]), Ok ({exp}))")
+        descr.append(f"#{i} depth={len(chain)} cls={cls.__name__} own={own} result={[(k, v.metadata.get('uid')) for k, v in real.items()]}")
+        ctx.hist("fields_validation", f"mro={len(cls.__mro__)}")
+    for ln in range(0, 6):
+        lst = list(range(ln))
+        for prim, py in (("k_slice_rev_tail", lst[-1:0:-1]), ("k_slice_tail", lst[1:])):
+            cases.append(f"({prim} (KTuple [{'; '.join('KInt ' + str(v) for v in lst)}]), "
+                         f"Ok (KList [{'; '.join('KInt ' + str(v) for v in py)}]))")
+            descr.append(f"{prim} on {lst}")
+    name = "K5-dataclass-fields-vs-python"
+    if not ctx.kernel_report.get("K5", {}).get("ok"):
+        ctx.correspondence(name, len(cases), -1, "K5 was not translated")
+        return
+    bad, log = vlib.coq_bad_idx("c10_fields", "PyK_strat Strategies FieldDecl", "From VerifGen Require Import K5.", "", cases,
+                                "fun c => res_kv_eqb (fst c) (snd c)", "res kv * res kv", shard=300,
+                                needs=["theories/FieldDecl.vo", "theories/Strategies.vo", "gen/K5.vo"])
+    if bad is None:
+        ctx.correspondence(name, len(cases), -1, log)
+        ctx.not_shown("translation validation K5 (dataclass_fields)", log)
+    else:
+        ctx.correspondence(name, len(cases), len(bad), str([descr[i] for i in bad[:6]]))
+        if bad:
+            ctx.not_shown("translation validation K5 (dataclass_fields)", f"cases {[descr[i] for i in bad[:6]]}")
+    ctx.count(n=len(cases))
+
+
 # ---------------------------------------------------------------------------------------
 # the run
 # ---------------------------------------------------------------------------------------
@@ -682,6 +1007,25 @@ def generate_cases(ctx: vlib.Ctx) -> list[dict]:
             c["slots"].update({a: "both" if a != "F2" else "strat", b: "both" if b != "F2" else "strat"})
             cases.append(c)
         cases.append(gen_case(rng, entry, "annotated", tk, present=[]))
+    # shape probes: each shape x (a lower-precedence registration that must lose / an alias registration that must win)
+    for entry in ("mixin", "mixin_fmt", "codec_dc", "mixin_msgpack"):
+        tk = "bytes" if entry == "mixin_msgpack" else rng.choice(["list", "dict", "date"])
+        lv = ENTRY_LEVELS[entry]
+        top, low = lv[0], ("cfg" if lv[0] != "cfg" else "cfgd")
+        for sh in ({"generic": "typevar"}, {"generic": "typevar", "config_at": "parent"},
+                   {"generic": "typevar", "target": "alias"} if entry == "codec_dc" else {"generic": "typevar", "position": "inner"},
+                   {"decl": "inherit"}, {"decl": "inherit", "config_at": "parent", "config_style": "plain"},
+                   {"decl": "redeclare_mid", "decoy": "both"}, {"decl": "redeclare_mid", "decoy": "f2", "config_at": "parent"},
+                   {"decl": "redeclare_leaf", "decoy": "both"},
+                   {"position": "self_opt"}, {"position": "self_list"}, {"position": "inner"},
+                   {"position": "self_opt", "decl": "inherit"}):
+            shape = {**DEFAULT_SHAPE, **sh}
+            for slots in ({f"{low}.ann": "both", f"{low}.ex": "both"}, {f"{top}.ex": "both", f"{low}.ex": "both"},
+                          {"F1": "both", f"{low}.ex": "both"}, {"F2": "strat", f"{top}.ex": "both"}, {f"{low}.ex": "both"},
+                          {f"{top}.ann": "ser", f"{low}.ann": "de", f"{top}.ex": "strat"}):
+                c = gen_case(rng, entry, "annotated", tk, present=[], shape=dict(shape))
+                c["slots"].update(slots)
+                cases.append(c)
     probes = [
         {"entry": "mixin", "alias": "annotated", "tkind": "list", "slots": {"cfg.ann": "astrat"}},
         {"entry": "mixin", "alias": "annotated", "tkind": "list", "slots": {"F2": "astrat", "cfg.ann": "both"}},
@@ -693,7 +1037,7 @@ def generate_cases(ctx: vlib.Ctx) -> list[dict]:
         p.update({"empty": {lvl: "absent" for lvl in LEVELS}, "dialect_support": True})
         cases.append(p)
     if ctx.quick():
-        for _ in range(1500 - len(cases)):
+        for _ in range(max(1200, 1900 - len(cases))):
             cases.append(gen_case(rng))
     else:
         # all presence subsets per entry point for the richest schema (variants sampled per slot) ...
@@ -741,6 +1085,7 @@ def run(ctx: vlib.Ctx):
         "BasicEncoder/Decoder of the dataclass, codec of the bare type) x alias kind (Annotated, NewType, none) x "
         "field type (List[int], Dict[str,int], date) x a subset of the 2 field slots + (level x key) slots with a variant "
         "per slot (dict both/one direction, pass_through, dict with pass_through, strategy object, use_annotations strategy); "
+        "x shape (field declared in the class / inherited / re-declared over a base declaration with decoy options; type written directly or through a TypeVar of a specialised generic dataclass; observed on the top object, on a Self-typed child, or on a nested dataclass; Config own/inherited, BaseConfig subclass/plain class); "
         "each case is observed in both directions; distinct = distinct (entry, alias, type, slots->variant, direction); "
         "non-trivial = at least one slot present. quick: fixed probes + 1500 sampled; thorough: every presence subset per entry point (format mixin: every subset of its 12 table slots, field slots sampled)")
     ctx.trusted += [
@@ -748,27 +1093,34 @@ def run(ctx: vlib.Ctx):
         "PyK_strat.v primitives model isinstance/is_hashable/is_dialect_subclass/is_generic/callable and dict.get on type keys (validated on sampled tables each run against the Python originals)",
         "the re-entry of the registry for NewType supertypes and for use_annotations strategies (Strategies.applied, case_ok.kernel_nt) is hand-modelled and tied by the (M) comparison only",
         "the tagged callables identify the slot they are registered at; `is` identity distinguishes pass_through from the built-in copy",
+        "Registry.get (K5 registry_prepare): get_real_type / get_type_origin / is_annotated are function parameters (theorem C10_keys holds for all of them); the handler loop and ValueSpec.__setattr__ are matched textually; validated against the real Registry.get with the real primitives each run",
+        "CodeBuilder.dataclass_fields (K5): classes are abstracted to getattr(cls, '__dataclass_fields__') per MRO entry, own annotated names and cls.__dict__; x[-1:0:-1] / x[1:] are named primitives validated against CPython; that @dataclass fills __dataclass_fields__ as CPython does is not modelled (the real-class runs with inherited / re-declared fields cover it)",
+        "how the call dialect / format dialect reach Self-typed children and nested dataclasses (flag forwarding in pack/unpack) is not in the model: it is covered by the `position` dimension of the real-class runs only",
     ]
     ctx.assumptions += ["strategy values are pass_through, dicts with serialize/deserialize entries, or SerializationStrategy instances (other values are ignored by the code; covered only by the kernel validation)"]
-    br = ctx.theorems("props/C10_precedence.vo", ["C10_precedence", "C10_empty", "C10_pass_through", "C10_sym"], kernels=["K5"])
+    br = ctx.theorems("props/C10_precedence.vo", ["C10_precedence", "C10_empty", "C10_pass_through", "C10_sym", "C10_keys"],
+                      kernels=["K5"])
     br2 = ctx.theorems("props/C10_single.vo", ["C10_single_application_partial", "C10_single_application_refuted"], kernels=["K5"])
-    proofs_ok = br.ok and br2.ok and ctx.kernel_report.get("K5", {}).get("ok")
+    br3 = ctx.theorems("props/C10_fields.vo", ["C10_field_decl"], kernels=["K5"])
+    proofs_ok = br.ok and br2.ok and br3.ok and ctx.kernel_report.get("K5", {}).get("ok")
     if proofs_ok and not ctx.quick():
         # second opinion: the independent checker on the compiled property files
         with vlib.Lock("build"):
             rc, out, _ = vlib.run(["timeout", "600", "coqchk", "-silent", "-o", "-Q", "theories", "Verif", "-Q", "gen", "VerifGen",
-                                   "-Q", "props", "VerifProps", "VerifProps.C10_precedence", "VerifProps.C10_single"],
+                                   "-Q", "props", "VerifProps", "VerifProps.C10_precedence", "VerifProps.C10_single", "VerifProps.C10_fields"],
                                   cwd=vlib.COQ, timeout=640)
         ok = rc == 0 and "Axioms: <none>" in out
-        ctx.obligation("coqchk -o (C10_precedence, C10_single): no axioms", ok, out[-600:])
+        ctx.obligation("coqchk -o (C10_precedence, C10_single, C10_fields): no axioms", ok, out[-600:])
         if not ok:
             ctx.not_shown("coqchk", out[-1500:])
 
     kernel_validation(ctx, ctx.budget(120, 1200))
+    registry_validation(ctx, ctx.budget(150, 1500))
+    fields_validation(ctx, ctx.budget(150, 1500))
 
     cases = generate_cases(ctx)
     if not proofs_ok and ctx.quick():
-        for _ in range(2500):   # a broken obligation: search harder
+        for _ in range(1500):   # a broken obligation: search harder
             cases.append(gen_case(ctx.rng))
     import time as _t0
     t_run = _t0.time()
@@ -786,8 +1138,12 @@ def run(ctx: vlib.Ctx):
         ctx.hist("entry", case["entry"])
         ctx.hist("alias", case["alias"])
         ctx.hist("n_slots", str(len(case["slots"])))
+        sh = {**DEFAULT_SHAPE, **case.get("shape", {})}
+        ctx.hist("shape_decl", sh["decl"] + ("+typevar" if sh["generic"] == "typevar" else ""))
+        ctx.hist("shape_position", sh["position"])
         for d in ("ser", "de"):
-            key = (case["entry"], case["alias"], case["tkind"], tuple(sorted(case["slots"].items())), d)
+            key = (case["entry"], case["alias"], case["tkind"], tuple(sorted(case["slots"].items())), d,
+                   tuple(sorted(case.get("shape", {}).items())))
             if "class_error" in res:
                 pred = stale_alias_prediction(case, d)
                 if res["class_error"] == "RecursionError" and (pred is None or pred["mode"] != "recursion") \
